@@ -72,6 +72,10 @@ func observe(src string) (out, res string, o interp.Outcome) {
 }
 
 func judge(c *Case) (sig, detail string) {
+	return interp.Guard(func() (string, string) { return judgeRaw(c) }, func() { vt.Discard("an evaluation of this case ran out of its budget (inconclusive)") })
+}
+
+func judgeRaw(c *Case) (sig, detail string) {
 	out, res, o := observe(c.Src)
 	c.Got = fmt.Sprintf("result %s, output %q", res, out)
 	if o.Kind == interp.Fuel {
@@ -140,6 +144,95 @@ func TestScopingPrograms(t *testing.T) {
 		c := Case{Src: src, WantOut: wantOut, WantRes: wantRes}
 		if sig, detail := judge(&c); sig != "" {
 			vt.Fail(rt, sig, detail, c)
+		}
+	})
+}
+
+// TestFactoryAndIteratorTemplates: literals evaluated many times (closure factories, iterator bodies): each function
+// value keeps the keyword defaults and the variables of the evaluation that made it. Expected output is computed here.
+func TestFactoryAndIteratorTemplates(t *testing.T) {
+	vt.Check(t, vt.N(1500, 100000), func(rt *rapid.T) {
+		var lines, want []string
+		switch rapid.IntRange(0, 3).Draw(rt, "template") {
+		case 0:
+			// factory with a keyword default computed from the factory's parameter, in several spellings
+			def := rapid.SampledFrom([]struct {
+				src string
+				f   func(d int) int
+			}{{"-d", func(d int) int { return -d }}, {"+d", func(d int) int { return d }}, {"d", func(d int) int { return d }}, {"-(d + 1)", func(d int) int { return -(d + 1) }},
+				{"d * 2", func(d int) int { return d * 2 }}, {"-d * 3", func(d int) int { return -d * 3 }}, {"[d, -d][1]", func(d int) int { return -d }}, {"{|| -d}()", func(d int) int { return -d }}, {"0 - d", func(d int) int { return -d }}}).Draw(rt, "default")
+			kind := rapid.SampledFrom([]string{"func", "method", "iter"}).Draw(rt, "literal kind")
+			switch kind {
+			case "func":
+				lines = append(lines, "mk := {|d| {|x, off: "+def.src+"| x + off}}")
+			case "method":
+				lines = append(lines, "mk := {|d| {m: m{|x, off: "+def.src+"| x + off}}}")
+			default:
+				lines = append(lines, "mk := {|d| <{|x, off: "+def.src+"| yield x + off}>}")
+			}
+			ds := rapid.SliceOfN(rapid.IntRange(-9, 30), 2, 4).Draw(rt, "ds")
+			for i, d := range ds {
+				lines = append(lines, fmt.Sprintf("c%d := mk(%d)", i, d))
+			}
+			for n := rapid.IntRange(2, 6).Draw(rt, "calls"); n > 0; n-- {
+				i := rapid.IntRange(0, len(ds)-1).Draw(rt, "which")
+				x := rapid.IntRange(0, 200).Draw(rt, "x")
+				call := map[string]string{"func": "c%d(%d)", "method": "c%d.m(%d)", "iter": "c%d.new(%d).next"}[kind]
+				if rapid.IntRange(0, 3).Draw(rt, "explicit") == 0 {
+					k := rapid.IntRange(0, 9).Draw(rt, "k")
+					call = map[string]string{"func": "c%d(%d, off: %d)", "method": "c%d.m(%d, off: %d)", "iter": "c%d.new(%d, off: %d).next"}[kind]
+					lines = append(lines, fmt.Sprintf(call+".p", i, x, k))
+					want = append(want, fmt.Sprint(x+k))
+					continue
+				}
+				lines = append(lines, fmt.Sprintf(call+".p", i, x))
+				want = append(want, fmt.Sprint(x+def.f(ds[i])))
+			}
+		case 1:
+			// closures made in an iterator body escape and are called after the iterator has moved on
+			a, step, lim, b := rapid.IntRange(0, 3).Draw(rt, "a"), rapid.IntRange(1, 3).Draw(rt, "step"), rapid.IntRange(2, 9).Draw(rt, "lim"), rapid.IntRange(0, 50).Draw(rt, "b")
+			body := rapid.SampledFrom([]string{"yield {|x| x + n} if n < %[2]d; recur(n + %[1]d)", "f := {|x| x + n}; recur(n + %[1]d); yield f if n < %[2]d", "recur(n + %[1]d); yield {|x| x + n} if n < %[2]d",
+				"yield {m: m{|x| x + n}}['m].{|g| {|x| g(nil, x)}} if n < %[2]d; recur(n + %[1]d)"}).Draw(rt, "body")
+			lines = append(lines, fmt.Sprintf("it := <{|n| "+body+"}>.new(%[3]d)", step, lim, a), "fs := it.A", fmt.Sprintf("fs@{|f| f(%d)}.p", b), fmt.Sprintf("fs.rev@{|f| f(%d)}.p", b))
+			fw, bw := []string{}, []string{}
+			for n := a; n < lim; n += step {
+				fw = append(fw, fmt.Sprint(b+n))
+				bw = append([]string{fmt.Sprint(b + n)}, bw...)
+			}
+			want = append(want, "["+strings.Join(fw, ", ")+"]", "["+strings.Join(bw, ", ")+"]")
+		case 2:
+			// inner iterators made in an outer iterator's body keep the outer step's argument while consumed later
+			lim, inner := rapid.IntRange(1, 4).Draw(rt, "lim"), rapid.IntRange(1, 3).Draw(rt, "inner")
+			lines = append(lines, fmt.Sprintf("outer := <{|n| yield <{|m| yield [n, m] if m < %d; recur(m + 1)}>.new(0) if n < %d; recur(n + 1)}>.new(0)", inner, lim),
+				"its := outer.A", "its.rev@{|it| it.A}.p")
+			rows := []string{}
+			for n := lim - 1; n >= 0; n-- {
+				row := []string{}
+				for m := 0; m < inner; m++ {
+					row = append(row, fmt.Sprintf("[%d, %d]", n, m))
+				}
+				rows = append(rows, "["+strings.Join(row, ", ")+"]")
+			}
+			want = append(want, "["+strings.Join(rows, ", ")+"]")
+		default:
+			// functions made by one literal in a list chain: each keeps its element and its own default
+			xs := rapid.SliceOfN(rapid.IntRange(-5, 20), 2, 5).Draw(rt, "xs")
+			strs, w1, w2 := []string{}, []string{}, []string{}
+			for _, x := range xs {
+				strs = append(strs, fmt.Sprint(x))
+				w1 = append(w1, fmt.Sprint(-x*10))
+				w2 = append(w2, fmt.Sprintf("[%d, 7]", x))
+			}
+			lines = append(lines, "fs := ["+strings.Join(strs, ", ")+"]@{|i| {|k: -i * 10| k}}", "fs@{|f| f()}.p", "gs := ["+strings.Join(strs, ", ")+"]@{|i| {|k: i| [k, \\1]}}", "gs@{|g| g(7)}.p", "fs.rev.rev@{|f| f()}.p")
+			want = append(want, "["+strings.Join(w1, ", ")+"]", "["+strings.Join(w2, ", ")+"]", "["+strings.Join(w1, ", ")+"]")
+		}
+		lines = append(lines, "nil")
+		c := Case{Src: strings.Join(lines, "\n"), WantOut: strings.Join(want, "\n") + "\n", WantRes: "nil"}
+		vt.Eval()
+		vt.Class("factory / iterator template")
+		vt.NonTrivial(c.Src, func() any { return c.Src })
+		if sig, detail := judge(&c); sig != "" {
+			vt.Fail(rt, "template:"+sig, detail, c)
 		}
 	})
 }
